@@ -171,6 +171,14 @@ struct World {
 const REL_AUTH: Scope = Some(0);
 const REL_ASSERT: Scope = Some(1);
 
+/// `s` is a syntactically valid DID followed by a non-empty path, query or fragment.
+fn is_did_url_with_component(s: &str) -> bool {
+  match s.find(['#', '/', '?']) {
+    Some(i) => is_did(&s[..i]) && s.len() > i + 1,
+    None => false,
+  }
+}
+
 fn ts(unix: i64) -> Timestamp {
   Timestamp::from_unix(unix).expect("timestamp in range")
 }
@@ -271,6 +279,12 @@ fn issue(w: &mut World, step: usize) {
   }
   if ctx::chance(1, 6) {
     o.insert("issuer".into(), serde_json::json!({"id": p.did, "name": "Sim Issuer"}));
+  }
+  if ctx::chance(1, 14) {
+    // the issuer's DID with a URL component: a DID URL is not the issuer's DID
+    let suffix = ["#sign", "/credentials", "?versionId=2"][ctx::choose(3)];
+    o.insert("issuer".into(), format!("{}{suffix}", p.did).into());
+    ctx::stat("fault.issuer.issuer_is_did_url");
   }
   if ctx::chance(1, 4) {
     o.insert("nonTransferable".into(), true.into());
@@ -378,7 +392,7 @@ fn issue_crafted(w: &mut World, step: usize) {
     return;
   }
   let (frag, _) = p.methods[ctx::choose(p.methods.len())].clone();
-  let kind = ["vc_expiration_without_exp", "vc_issuer_mismatch", "vc_issuance_mismatch", "exp_out_of_range", "sub_mismatch"][ctx::choose(5)];
+  let kind = ["vc_expiration_without_exp", "vc_issuer_mismatch", "vc_issuance_mismatch", "exp_out_of_range", "sub_mismatch", "nbf_and_iat"][ctx::choose(6)];
   let mut claims = serde_json::json!({
     "iss": p.did,
     "nbf": now_i - 100,
@@ -395,8 +409,27 @@ fn issue_crafted(w: &mut World, step: usize) {
     "vc_issuer_mismatch" => claims["vc"]["issuer"] = "did:sim:someoneelse".into(),
     "vc_issuance_mismatch" => claims["vc"]["issuanceDate"] = ts(now_i - 5000).to_rfc3339().into(),
     "exp_out_of_range" => claims["exp"] = Value::from(1_000_000_000_000_000i64),
+    "nbf_and_iat" => {
+      // both claims present: the credential is valid from nbf (here in the future), iat (in the past) is only the
+      // time of signing
+      claims["nbf"] = Value::from(now_i + 500);
+      claims["iat"] = Value::from(now_i - 500);
+    }
     _ => claims["vc"]["credentialSubject"]["id"] = "did:sim:anothersubject".into(),
   }
+  // "nbf_and_iat" is a well-formed credential; its ground truth is what the claims denote
+  let truth = if kind == "nbf_and_iat" {
+    serde_json::json!({
+      "@context": "https://www.w3.org/2018/credentials/v1",
+      "id": claims["jti"],
+      "type": ["VerifiableCredential"],
+      "credentialSubject": {"id": "did:sim:subject", "crafted": step},
+      "issuer": p.did,
+      "issuanceDate": ts(now_i + 500).to_rfc3339(),
+    })
+  } else {
+    Value::Null
+  };
   if let Ok(s) = sign_raw(p, &frag, claims.to_string().as_bytes(), &JwsSignatureOptions::default()) {
     ctx::trace(format!("step {step}: I{i} signs crafted credential claims ({kind})"));
     w.creds.push(CredToken {
@@ -404,10 +437,10 @@ fn issue_crafted(w: &mut World, step: usize) {
       issuer: i,
       kid: format!("{}#{frag}", p.did),
       nonce: None,
-      truth: Value::Null,
+      truth,
       custom: None,
       issued_index: None,
-      crafted: Some(kind),
+      crafted: Some(kind).filter(|k| *k != "nbf_and_iat"),
     });
   }
 }
@@ -516,7 +549,8 @@ fn present_crafted(w: &mut World, step: usize) {
     return;
   }
   let (frag, _) = p.methods[ctx::choose(p.methods.len())].clone();
-  let kind = ["holder_mismatch", "id_mismatch", "exp_out_of_range", "iss_not_did", "vp_id_without_jti"][ctx::choose(5)];
+  let kind = ["holder_mismatch", "id_mismatch", "exp_out_of_range", "iss_not_did", "vp_id_without_jti", "nbf_and_iat"][ctx::choose(6)];
+  let now_h = w.clock.now + w.parties[h].skew;
   let mut claims = serde_json::json!({
     "iss": p.did,
     "vp": {"@context": "https://www.w3.org/2018/credentials/v1", "type": "VerifiablePresentation", "verifiableCredential": []},
@@ -530,6 +564,10 @@ fn present_crafted(w: &mut World, step: usize) {
     }
     "exp_out_of_range" => claims["exp"] = Value::from(1_000_000_000_000_000i64),
     "vp_id_without_jti" => claims["vp"]["id"] = "https://pres.example/only-in-vp".into(),
+    "nbf_and_iat" => {
+      claims["nbf"] = Value::from(now_h + 300);
+      claims["iat"] = Value::from(now_h - 300);
+    }
     _ => claims["iss"] = "https://holder.example/".into(),
   }
   let mut sopts = JwsSignatureOptions::default();
@@ -549,7 +587,8 @@ fn present_crafted(w: &mut World, step: usize) {
       truth: Value::Null,
       aud: None,
       exp: None,
-      nbf: None,
+      // well-formed when both nbf and iat are present: the presentation is valid from nbf
+      nbf: Some(now_h + 300).filter(|_| kind == "nbf_and_iat"),
       custom: None,
       crafted: Some(kind),
     });
@@ -984,6 +1023,13 @@ fn validate_credential(w: &mut World, step: usize) {
                       o => o.get("id").and_then(|i| i.as_str()).unwrap_or("").to_owned(),
                     });
                     match iss {
+                      Some(iss) if is_did_url_with_component(&iss) => {
+                        // the issuer's DID followed by a path, query or fragment is not the method's DID; either
+                        // variant identifies that
+                        pre = Some("IdentifierMismatch|SignerUrl");
+                        pre_label = "identifier_mismatch";
+                        ctx::stat("false.identifier_mismatch_issuer_is_did_url");
+                      }
                       Some(iss) if is_did(&iss) => {
                         if iss != method_did {
                           pre = Some("IdentifierMismatch");
@@ -1135,7 +1181,7 @@ fn validate_credential(w: &mut World, step: usize) {
         match pre {
           None => ctx::stat("observation.verify_signature_rejected_although_conditions_hold"),
           Some(want) => {
-            if !mutated && name != want {
+            if !mutated && !want.split('|').any(|w| w == name) {
               ctx::violation(
                 "C02",
                 "C02.error_identifies_condition",
@@ -1218,7 +1264,7 @@ fn validate_credential(w: &mut World, step: usize) {
           // any pre-signature or signature error identifies it
           got.len() == 1 && ["JwsDecodingError", "MethodDataLookupError", "DocumentMismatch", "Signature"].contains(&got[0])
         } else {
-          got == vec![want]
+          got.len() == 1 && want.split('|').any(|w| w == got[0])
         };
         if !ok {
           ctx::violation(
@@ -1405,7 +1451,7 @@ fn validate_presentation(w: &mut World, step: usize) {
                       want = Some("IssuanceDate");
                       label = "issuance_date";
                       ctx::stat("false.p.issuance_date");
-                    } else if tp.crafted.is_some() {
+                    } else if tp.crafted.is_some() && tp.crafted != Some("nbf_and_iat") {
                       // disagreeing duplicated values / numeric date outside years 0000-9999
                       want = Some("PresentationStructure");
                       label = "structure";
@@ -1459,7 +1505,8 @@ fn validate_presentation(w: &mut World, step: usize) {
           let got_exp = decoded.expiration_date.map(|t| t.to_unix());
           let got_nbf = decoded.issuance_date.map(|t| t.to_unix());
           let got_custom = decoded.custom_claims.as_ref().filter(|o| !o.is_empty()).map(|o| serde_json::to_value(o).unwrap());
-          if got_p != tp.truth || got_aud != tp.aud || got_exp != tp.exp || got_nbf != tp.nbf || got_custom != tp.custom {
+          let crafted = tp.crafted.is_some();
+          if (!crafted && (got_p != tp.truth || got_custom != tp.custom)) || got_aud != tp.aud || got_exp != tp.exp || got_nbf != tp.nbf {
             ctx::violation(
               "C03",
               "C03.returns_signed_presentation",
